@@ -395,7 +395,16 @@ pub fn family_d(_tier: Tier) -> Vec<Family> {
                 default_line_pos: 0,
             },
             users: users.iter().map(fit).collect(),
-            maps: vec![(rot(nl), rev(nr)), (rev(nl), rot(nr)), (idn(nl), idn(nr)), (rot(nl), rot(nr))],
+            maps: vec![(rot(nl), rev(nr)), (rev(nl), rot(nr)), (idn(nl), idn(nr)), (rot(nl), rot(nr)), {
+                // identity below min(nl, nr); only the two highest ids of the longer side are exchanged
+                let tail_swap = |n: usize| -> Vec<u16> {
+                    let mut v = idn(n);
+                    let k = v.len();
+                    v.swap(k - 1, k - 2);
+                    v
+                };
+                if nr > nl { (idn(nl), tail_swap(nr)) } else { (tail_swap(nl), idn(nr)) }
+            }],
             alphabet: vec!['a', 'b', 'c', ' '],
         });
     }
